@@ -279,7 +279,7 @@ class Sim:
             self.ctx.exclude("singular")
             return
         tol = opcheck.MP_TOL if self.mp else opcheck.F64_TOL
-        if not opcheck.vec_close(got, ref, tol, R.scale_of(ref)):
+        if not opcheck.vec_equiv(obs.system_of(v), obs.stored(v), ref, tol, R.scale_of(ref)):
             self.fail("inplace_value", f"after v {opname} {operand}: state {obs.system_of(v)}{opcheck.fmt(obs.stored(v))} = {opcheck.fmt(got)} "
                       f"but the functional result is {opcheck.fmt(ref)} (before: {before_vals})", opname)
             return
